@@ -29,6 +29,7 @@ type RenderContext struct {
 	blockDefs          map[string][]*BlockNode // Definitions of each block along the extends chain, most derived first
 	currentDefs        []*BlockNode            // Definition chain of the block being rendered (for parent() function)
 	currentLevel       int                     // Index into currentDefs of the definition being rendered
+	blockDepth         int                     // Number of block renderings in progress (guards against recursive blocks)
 	inParentCall       bool                    // Flag to indicate if we're currently rendering a parent() call
 	sandboxed          bool                    // Flag indicating if this context is sandboxed
 	lastLoadedTemplate *Template               // The template that created this context (for resolving relative paths)
@@ -116,6 +117,7 @@ func NewRenderContext(env *Environment, context map[string]interface{}, engine *
 	ctx.blockDefs = nil
 	ctx.currentDefs = nil
 	ctx.currentLevel = 0
+	ctx.blockDepth = 0
 	ctx.parent = nil
 	ctx.inParentCall = false
 	ctx.sandboxed = false
@@ -338,6 +340,7 @@ func (ctx *RenderContext) Clone() *RenderContext {
 	newCtx.blockDefs = nil
 	newCtx.currentDefs = nil
 	newCtx.currentLevel = 0
+	newCtx.blockDepth = 0
 	newCtx.parent = ctx
 	newCtx.inParentCall = false
 
